@@ -67,6 +67,8 @@ def _witnesses():
     """hand-written chains of the shapes the three simplifications act on (incl. the witnesses of D3, D4, D5)"""
     d = _table(["g", "x", "y"], [[1, 1, 10], [1, 2, 20], [2, 3, 30], [2, 4, 40]])
     r = _table(["g", "x", "z"], [[1, 1, 5], [2, 3, 6]])
+    # the two orders (x, y) and (y, x) disagree inside each partition; no ties under either
+    w = _table(["g", "x", "y", "v"], [[1, 1, 3, 10], [1, 2, 2, 20], [1, 3, 1, 30], [2, 1, 2, 40], [2, 2, 1, 50]])
 
     def case(steps, tables=None, name=None):
         return {"tables": tables or {"d": d}, "pipe": {"table": "d", "steps": steps}, "_always": True, "_name": name}
@@ -103,6 +105,21 @@ def _witnesses():
         case([ext([("s", "x.sum()")], partition_by=["g"]), ext([("m", "y.max()")], partition_by=["g"])],
              name="merge_windowed"),
         case([ext([("a", "x + 1")]), ext([("n", "_size()")], partition_by=1)], name="e8da488_partition_one"),
+        # consecutive ordered windows: merged only when partition, order LIST and reverse list are the same
+        case([ext([("r1", "_row_number()")], partition_by=["g"], order_by=["x", "y"]),
+              ext([("r2", "_row_number()")], partition_by=["g"], order_by=["y", "x"])],
+             tables={"d": w}, name="window_order_permuted_no_merge"),
+        case([ext([("c1", "v.cumsum()")], partition_by=["g"], order_by=["x", "y"], reverse=["y"]),
+              ext([("c2", "v.cumsum()")], partition_by=["g"], order_by=["x", "y"], reverse=["x"])],
+             tables={"d": w}, name="window_reverse_differs_no_merge"),
+        case([ext([("c1", "v.cumsum()")], partition_by=["g"], order_by=["x", "y"]),
+              ext([("c2", "v.cummax()")], partition_by=["g"], order_by=["x", "y"])],
+             tables={"d": w}, name="window_same_order_merge"),
+        case([ext([("c1", "v.cumsum()")], partition_by=["g", "x"], order_by=["y"]),
+              ext([("c2", "v.cumsum()")], partition_by=["x", "g"], order_by=["y"])],
+             tables={"d": w}, name="window_partition_permuted"),
+        case([{"call": "order_rows", "cols": ["x"], "reverse": [], "limit": 0}, ext([("a", "x + 1")])],
+             name="order_limit_zero_then_extend"),
     ]
     return out
 
